@@ -60,9 +60,15 @@ pub fn replay_pp_one(idx: usize, v: &Value, rep: &Report, cnt: &mut Counts, seed
     if let Some((ml, a, b)) = r {
         cnt.add("pp_scaled_exec", 2);
         if ml != minlen {
-            rep.finding(Class::Pair, &format!("min_haystack_len() is {ml}, model max(|n|, max(i1,i2)+VB) = {minlen}"), ctx("min_haystack_len"));
+            // the documented contract is relative to the accessor's own value; its formula is conformance only
+            rep.finding(Class::Drift, &format!("min_haystack_len() is {ml}, L-model max(|n|, max(i1,i2)+VB) = {minlen}"), ctx("min_haystack_len"));
         }
-        // documented panic exactly when the haystack is shorter than min_haystack_len (C14)
+        // documented panic exactly when the haystack is shorter than the finder's own min_haystack_len() (C14)
+        let panic = h.len() < ml;
+        if ml != minlen {
+            // the L-model's load/result predictions assume its own minimum: skip the exact comparison for this vector
+            return;
+        }
         for (name, got) in [("find", &a), ("find_prefilter", &b)] {
             match (got, panic) {
                 (Err(_), true) => {}
@@ -168,7 +174,7 @@ fn find_or(_n: &[u8], _h: &[u8], find: i64, panic: bool) -> i64 {
 fn real_pp(rep: &Report, cnt: &mut Counts, name: &str, in_domain: bool, ml: usize, want_ml: usize, a: Result<i64, String>, b: Result<i64, String>, find: i64, n: &[u8], h: &[u8], i1: usize, i2: usize, ctx: &dyn Fn(&str) -> Value) {
     cnt.add("pp_real_exec", 2);
     if ml != want_ml {
-        rep.finding(Class::Pair, &format!("{name} min_haystack_len() is {ml}, expected max(|n|, max(i1,i2)+16) = {want_ml}"), ctx(name));
+        rep.finding(Class::Drift, &format!("{name} min_haystack_len() is {ml}, L-model max(|n|, max(i1,i2)+16) = {want_ml}"), ctx(name));
     }
     if !in_domain {
         return;
